@@ -101,6 +101,17 @@ var c19Dest = []reflect.Type{
 	reflect.TypeOf(NamedF32(0)), reflect.TypeOf(NamedI8(0)), reflect.TypeOf(NamedU16(0)),
 }
 
+// slices and maps of every numeric element kind (the alternative decoder has a specialised routine per kind)
+var c19SliceDest = []reflect.Type{
+	reflect.TypeOf([]int(nil)), reflect.TypeOf([]int8(nil)), reflect.TypeOf([]int32(nil)), reflect.TypeOf([]int64(nil)),
+	reflect.TypeOf([]uint(nil)), reflect.TypeOf([]uint16(nil)), reflect.TypeOf([]uint32(nil)), reflect.TypeOf([]uint64(nil)), reflect.TypeOf([]uintptr(nil)),
+	reflect.TypeOf([]float64(nil)), reflect.TypeOf([]json.Number(nil)), reflect.TypeOf([]*uint32(nil)), reflect.TypeOf([][]uint32(nil)), reflect.TypeOf([3]int64{}),
+}
+
+var c19MapDest = []reflect.Type{
+	reflect.TypeOf(map[string]interface{}(nil)), reflect.TypeOf(map[string]json.RawMessage(nil)),
+}
+
 type NamedF32 float32
 type NamedI8 int8
 type NamedU16 uint16
@@ -161,6 +172,8 @@ func (c *C19Case) Run() (res stat.Result) {
 		{" " + lit + "\n", c19Dest[:15]},
 		{"[" + lit + "," + lit + "]", c19Dest[15:19]},
 		{`{"a":` + lit + `, "b" : ` + lit + ` }`, c19Dest[19:21]},
+		{"[" + lit + " , " + lit + "]", c19SliceDest},
+		{`{"k":` + lit + `,"l":[` + lit + `]}`, c19MapDest},
 		{lit, c19Dest[21:]},
 		{`{"` + lit + `":1}`, c19KeyDest},
 		{`{"i":"` + lit + `"}`, []reflect.Type{reflect.TypeOf(c19Str{})}},
